@@ -244,8 +244,9 @@ PROPS = {
     },
     "C33": {
         "level": "proof",
-        "verus": ["smith_response", "smith_collect", "smith_concrete", "execution"],
-        "explanation": "KERNELS. Unit smith_concrete: ResponseBuilder::concrete_type chooses, for a union, one of its members; for an interface, an OBJECT type of the schema that implements it (the interface itself only when the count of such types is 0); "
+        "verus": ["smith_response", "smith_collect", "smith_concrete", "smith_keys", "execution"],
+        "explanation": "KERNELS. Unit smith_keys: ResponseBuilder::selection_set, unless a custom generator takes over, returns an object with EXACTLY the response keys collect_fields returned for the chosen concrete type, in that order, "
+                       "and `__typename` is that concrete type. Unit smith_concrete: ResponseBuilder::concrete_type chooses, for a union, one of its members; for an interface, an OBJECT type of the schema that implements it (the interface itself only when the count of such types is 0); "
                        "otherwise the type itself (the two scans keep their predicates as closure bodies; that the second scan finds the idx-th entry the first one counted is an explicit assumption). ResponseBuilder::type_condition_matches, the test that decides which fragments contribute response keys for the chosen concrete object type. Verus proves on the extracted body, for every schema, "
                        "object type and type condition, that it equals the spec's DoesFragmentTypeApply -- the same specification function (shared text) against which the executor's does_fragment_type_apply is proved (unit execution, C26): "
                        "the generator and the executor agree on which fragments apply. Unit smith_collect: ResponseBuilder::collect_fields, which decides the response keys of every generated object -- a field goes to the group of its response key "
